@@ -135,6 +135,8 @@ type c16Harness struct {
 	trace    []string
 	released []int // Start calls released per adapter index
 	relAll   int
+	fresh    []int32 // per adapter: the next Start belongs to a fresh registration (see regagain)
+	avoidNoRetry int // adapter whose Starts must not be answered with "do not retry" during the current step (-1: none)
 }
 
 func (h *c16Harness) logf(format string, a ...interface{}) {
@@ -167,6 +169,10 @@ func (h *c16Harness) nextSpare() int {
 // onStart applies an observed Start call to the model and releases it with outcome out.
 func (h *c16Harness) onStart(v *vfConv, out int) {
 	md := &h.model[v.idx]
+	if v.idx >= 0 && atomic.CompareAndSwapInt32(&h.fresh[v.idx], 1, 0) {
+		h.logf("(adapter %d had been forgotten: fresh registration)", v.idx)
+		*md = c16Model{registered: true, budget: h.cs.Budget, okStarts: md.okStarts, closes: md.closes}
+	}
 	h.logf("Start(%d#%d)->%d", v.idx, v.inst, out)
 	if v != h.conv[v.idx] {
 		h.fail("c16.illegal-start", "Start called on instance #%d of adapter %d, but instance #%d is the registered one", v.inst, v.idx, h.conv[v.idx].inst)
@@ -226,6 +232,10 @@ func (h *c16Harness) drive(what string, until func() bool, opX int, opOut int, m
 			out, used = opOut, true
 		} else {
 			out = h.nextSpare()
+		}
+		if out == outNoRetry && e.v.idx == h.avoidNoRetry {
+			// (a permanent adapter started from inside Register: what "do not retry" means there is not stated)
+			out = outRetry
 		}
 		h.onStart(e.v, out)
 	}
@@ -426,7 +436,7 @@ func (h *c16Harness) unregister(i int) {
 
 func c16Run(c *vk.Ctx, cs c16Case) {
 	n := len(cs.Perm)
-	h := &c16Harness{c: c, cs: &cs, conv: make([]*vfConv, n), model: make([]c16Model, n), released: make([]int, n),
+	h := &c16Harness{c: c, cs: &cs, conv: make([]*vfConv, n), model: make([]c16Model, n), released: make([]int, n), fresh: make([]int32, n), avoidNoRetry: -1,
 		events: make(chan vfEvent, 256), stop: make(chan struct{})}
 	m := &Manager{
 		queueTtl:    int32(cs.Budget),
@@ -499,7 +509,22 @@ func c16Run(c *vk.Ctx, cs c16Case) {
 				failing = true
 			}
 			v := h.conv[i]
-			h.inHandler(fmt.Sprintf("Register(adapter %d) again while it waits for its retry", i), func() { m.Register(v.as()) }, i, out)
+			if cs.Perm[i] {
+				h.avoidNoRetry = i
+			}
+			h.inHandler(fmt.Sprintf("Register(adapter %d) again while it waits for its retry", i), func() {
+				// a retry tick may have forgotten the adapter by now (a spare "do not retry" outcome): then this
+				// is a fresh registration with a fresh budget, and the model is told so before the Start arrives
+				if _, known := m.convs.Load(v.addr); !known {
+					atomic.StoreInt32(&h.fresh[i], 1)
+				}
+				m.Register(v.as())
+			}, i, out)
+			if atomic.CompareAndSwapInt32(&h.fresh[i], 1, 0) {
+				// fresh registration that did not lead to a Start (no budget): not kept
+				h.model[i].registered, h.model[i].forgetting = false, false
+			}
+			h.avoidNoRetry = -1
 		case "unreg":
 			h.logf("%s", step)
 			h.unregister(i)
